@@ -151,8 +151,9 @@ class _Cell:
 def _mk_dct(nR, nZ):
     def body(env):
         d = dctm.DCT_2D.__new__(dctm.DCT_2D)
-        d.Rarray = numpy.linspace(1.0, 2.0, nR)
-        d.Zarray = numpy.linspace(-1.0, 1.0, nZ)
+        # spacings 0.5 and 1.0 (dR != dZ) for every size, so that the float constants (pi*k/n/dR)**2 stay recognisable multiples of pi**2
+        d.Rarray = 1.0 + 0.5 * numpy.arange(nR)
+        d.Zarray = -1.0 + 1.0 * numpy.arange(nZ)
         d.nR, d.nZ = nR, nZ
         d.dR = d.Rarray[1] - d.Rarray[0]
         d.dZ = d.Zarray[1] - d.Zarray[0]
@@ -165,7 +166,7 @@ def _mk_dct(nR, nZ):
         d.psiDCT = coef
         d.coef_R = (numpy.pi * numpy.arange(nR) / nR)[numpy.newaxis, :]
         d.coef_Z = (numpy.pi * numpy.arange(nZ) / nZ)[:, numpy.newaxis]
-        R, Z = env.real("R", lo=1, hi=2), env.real("Z", lo=-1, hi=1)
+        R, Z = env.real("R", lo=1, hi=float(d.Rarray[-1])), env.real("Z", lo=-1, hi=float(d.Zarray[-1]))
         if env.mode == "sym":
             px = _DctProxy(PROXY)
             with patched((dctm, "numpy", px)):
@@ -334,8 +335,8 @@ OBLIGATIONS.append(Ob("spline_closures", ob_closures, tier="quick", family="clos
 OBLIGATIONS.append(Ob("helper_chain_vs_AD", ob_helper_chain, tier="quick", family="helper chain", encodes=ENCH + ["hypnotoad.core.equilibrium:Equilibrium.magneticFunctionsFromGrid"],
                       desc="dBRdR..dB2dZ equal the AD derivatives of the real Bp_R, Bp_Z, Bzeta, B2; div B = 0; dB/dR = dB2/dR/(2B)",
                       stubs=["RectBivariateSpline -> jets", "fpol, fpolprime -> symbols (non-constant fpol)"], bounds="R>=1; all derivatives of psi free"))
-for (_a, _b) in ((2, 2), (3, 2)):
-    OBLIGATIONS.append(Ob("dct_%dx%d_derivative_methods" % (_a, _b), _mk_dct(_a, _b), tier="quick" if (_a, _b) == (2, 2) else "thorough", family="DCT",
+for (_a, _b) in ((2, 2), (3, 2), (2, 3), (3, 3), (4, 3), (3, 4), (4, 4), (5, 4)):
+    OBLIGATIONS.append(Ob("dct_%dx%d_derivative_methods" % (_a, _b), _mk_dct(_a, _b), tier="quick" if _a + _b <= 6 else "thorough", family="DCT",
                           encodes=["hypnotoad.utils.dct_interpolation:DCT_2D.__call__", "hypnotoad.utils.dct_interpolation:DCT_2D.ddR", "hypnotoad.utils.dct_interpolation:DCT_2D.ddZ",
                                    "hypnotoad.utils.dct_interpolation:DCT_2D.d2dR2", "hypnotoad.utils.dct_interpolation:DCT_2D.d2dZ2", "hypnotoad.utils.dct_interpolation:DCT_2D.d2dRdZ"],
                           desc="the five derivative methods equal the AD derivatives of __call__ for symbolic DCT coefficients",
